@@ -439,6 +439,8 @@ func runC19(tier string, r *rng) {
 	for _, ans := range []string{"fail", "ok:20", "ok:15", "ok:40"} {
 		c19HeadRaceStale(20, ans)
 	}
+	c19LagStore(20, 5)
+	c19LagStore(45, 10)
 	if os.Getenv("VERIF_NO_COLDSTART") == "" {
 		c19ColdStart(20)
 		c19ColdStart(45)
@@ -602,4 +604,59 @@ func c19ColdStart(storeTo int) {
 	}
 	hc := headOnce()
 	emit("C19 kind=coldstart store=%d => paused=%s arrive=%s ha=%s hb=%s hc=%s", storeTo, paused, arr, ha, hb, hc)
+}
+
+// lagStore: a Store whose own Head() does not see new writes yet (the reason syncStore caches the head at all).
+type lagStore struct {
+	header.Store[*vhdr.Header]
+	held atomic.Pointer[vhdr.Header]
+}
+
+func (l *lagStore) Head(ctx context.Context, opts ...header.HeadOption[*vhdr.Header]) (*vhdr.Header, error) {
+	if h := l.held.Load(); h != nil {
+		return h, nil
+	}
+	return l.Store.Head(ctx, opts...)
+}
+
+// c19LagStore: over a store whose Head() lags behind Append, head 21 is learned, then the tail follows the head and the
+// headers below it are pruned. Head() must not go back to what the lagging store reports.
+func c19LagStore(storeTo, window int) {
+	ctx := context.Background()
+	now := time.Now().UnixNano()
+	t0 := now - int64(5*time.Second) - int64(c19N-1)*c19Spacing
+	chain := vhdr.Chain("A", c19N, t0, c19Spacing, 0)
+	ls := &lagStore{Store: newStoreWith(chain, 1, storeTo)}
+	g := &scriptGetter{chain: chain}
+	g.headFn = func(*vhdr.Header) (*vhdr.Header, error) { return nil, errors.New("scripted head failure") }
+	s, _ := newSyncer(g, ls, hsync.WithPruningWindow(time.Duration(window)*time.Duration(c19Spacing)+30*time.Second))
+	s.VerifSetPolicy(100*time.Hour, time.Duration(c19Spacing), 100*time.Hour)
+	headOnce := func() string {
+		hctx, cancel := context.WithTimeout(ctx, 3*time.Second)
+		defer cancel()
+		if h, err := s.Head(hctx); err == nil && h != nil {
+			return utoa(h.H)
+		}
+		return "err"
+	}
+	h0 := headOnce()
+	ls.held.Store(chain[storeTo-1])
+	arr := "ok"
+	if err := s.VerifIncomingNetworkHead(ctx, chain[storeTo]); err != nil {
+		arr = "err"
+	}
+	h1 := headOnce()
+	mv := "ok"
+	tctx, cancelT := context.WithTimeout(ctx, 3*time.Second)
+	tl, err := s.VerifSubjectiveTail(tctx, chain[storeTo])
+	cancelT()
+	tail := uint64(0)
+	if err != nil {
+		mv = "err"
+	} else if tl != nil {
+		tail = tl.H
+	}
+	h2 := headOnce()
+	h3 := headOnce()
+	emit("C19 kind=lagstore store=%d window=%d => h0=%s arrive=%s h1=%s tailmove=%s tail=%d h2=%s h3=%s", storeTo, window, h0, arr, h1, mv, tail, h2, h3)
 }
